@@ -20,6 +20,7 @@ RULE = ("case = (streaming format, n frames, composition of n into consecutive w
 ENUM_SCOPE = ("every composition of n frames for n<=N (quick N=5, thorough N=9) x 11 formats x cell/time presence; every ragged "
               "kind after every prefix of a 3-write history; every crash point of every composition of n=4 (thorough 6) for the "
               "live formats (h5, h5-append, nc, dcd, xtc) with SIGKILL and os._exit")
+RULE += ('; widened: shape-changing cells, an earlier file of the format written (and closed / left open) by the crash child first, an older longer file already at the output path')
 QUICK = {"examples": 60, "shards": 12, "budget_s": 100}
 THOROUGH = {"examples": 1500, "shards": 16, "budget_s": 1500}
 ASSUMPTIONS = ["process kill only (SIGKILL / os._exit in a forked writer): power loss and fsync ordering are out of reach without a "
